@@ -40,6 +40,10 @@ CHECKS = {
             "runtime monitor: one ASan/UBSan process per content-file mutant (bits, truncations, bytes, field-aware varints/tags) with unchanged-state oracle; kill enumeration over every content-file system call through the LD_PRELOAD shim with old-or-new-version oracle and an ordering spec on the recorded event log",
             "Fault enumeration: every single bit and every truncation length of content files of 3 (quick) / 12 (thorough) shapes covering format 2 and 3 and all record kinds, plus field-aware damage aimed at length/count/position fields; each mutant is one process under ASan+UBSan and must be rejected with nothing modified. Every content-file system call of test-rewrite/touch/sync is a kill point (before/after/mid-write) for 1..7 copies; each copy must remain a complete old or new version. The save protocol (O_EXCL tmp, fsync, re-read to EOF, rename) is checked on every recorded event log.",
             "Kill = process death, not power loss (fsync is checked only as an ordering event). Multi-byte random damage passing the CRC by chance (2^-32) would be reported as accepted. Mutation positions for byte-value mutants are strided in quick."),
+    "C12": ("exploration",
+            "runtime monitoring with two independent observers per command: before/after snapshot (type, size, mtime, inode, sha-256) of data, parity, content, pool and array root, and strace -f of the real binary reduced to file-system-changing system calls; both compared with a per-command table of allowed targets and with fix's own fixed/status tags",
+            "Each command x option combination is run on healthy, unsynced, damaged and partially lost arrays; every changed path and every mutating system call must fall into the command's documented set (read-only commands: log+lock only; scrub: +content; sync: +parity, never data; fix: only paths it reports, never content; pool: pool dir only; touch: content + sub-second part of zero time-stamps).",
+            "Sampled states and option combinations. atime not observed. strace sees system calls, so libc buffering cannot hide a write; the snapshot sees effects, so an unparsed system call cannot hide a change."),
     "C13": ("exploration",
             "runtime monitoring of schedules: differential runs across io-cache depths and seeded schedule perturbation (source hooks), ThreadSanitizer/ASan on io-ring and hostile scan workloads, offline checker of the io.c hook event trace (slot ownership, exactly-once, order), watchdog + SIGINT for termination",
             "From one restored image sync/scrub are run single-threaded and with 3..128 ring slots under seeded yields/sleeps injected between critical sections; parity bytes, decoded state and error sets must equal the single-thread reference. Every run's hook trace (one atomic sequence counter) is checked for overlapping slot ownership, positions processed exactly once and in order, and worker silence after join. TSan (real SIMD and portable-C builds) and ASan watch the same workloads plus a scan workload built to hit the copy-detection window. Evidence reports events, hand-overs and distinct interleavings seen.",
